@@ -15,7 +15,10 @@ from vk import boot
 
 VERIF = boot.VERIF
 EVID = os.path.join(VERIF, "evidence")
-REPLAYS = os.path.join(VERIF, "replays")
+if os.path.realpath(boot.REPO) != "/repo":
+  # runs against a scratch checkout (seeded changes) never touch the committed evidence
+  EVID = os.environ.get("VERIF_EVIDENCE_DIR") or os.path.join(VERIF, "scratch", "evidence_other_repo")
+REPLAYS = os.path.join(VERIF, "replays" if os.path.realpath(boot.REPO) == "/repo" else "replays_other_repo")
 KNOWN = os.path.join(VERIF, "known_findings.json")
 NPROC = int(os.environ.get("VERIF_JOBS", "0")) or min(16, os.cpu_count() or 1)
 
